@@ -265,3 +265,9 @@ M("C13", "C13.flags", "src/scenic/syntax/compiler.py", "        self.usedBreak, 
 M("C07", "C07.coerce", "src/scenic/syntax/veneer.py", "    # If the from point is oriented, use its orientation; else assume global coords.\n    # (This must be decided before the point is coerced to a plain vector.)\n    if isA(fromPt, OrientedPoint):\n        orientation = fromPt.orientation\n    else:\n        orientation = Orientation.fromEuler(0, 0, 0)\n\n    fromPt = toVector(fromPt, 'specifier \"beyond X by Y from Z\" with Z not a vector')\n", "    fromPt = toVector(fromPt, 'specifier \"beyond X by Y from Z\" with Z not a vector')\n    if isA(fromPt, OrientedPoint):\n        orientation = fromPt.orientation\n    else:\n        orientation = Orientation.fromEuler(0, 0, 0)\n", "c07-beyond-test-after-coercion")
 M("C07", "C07.facing", "src/scenic/syntax/veneer.py", "                orientation = context.parentOrientation.inverse * headingAtPos", "                orientation = headingAtPos * context.parentOrientation.inverse", "c07-facing-composition-side")
 M("C03", "C03.precision", "src/scenic/core/geometry.py", "    vertices = np.array(vertices, dtype=np.float64)[:, :2]", "    vertices = np.array(vertices, dtype=np.float32)[:, :2]", "c03-float32-triangulation")
+
+M("C10", "C10.partial", _G, "                try:\n                    lines.extend(self._tokenizer.get_lines([lineno]))\n                except KeyError:\n                    lines.append(\"\")\n", "                lines.extend(self._tokenizer.get_lines([lineno]))\n", "c10-get-lines-unprotected")
+M("C10", "C10.partial", _G, "&('until' | 'or' | 'and' | \"implies\" | ')' | ';' | NEWLINE)", "&('until' | 'or' | 'and' | ')' | ';' | NEWLINE)", "c10-temporal-group-lookahead")
+M("C10", "C10.partial", "src/scenic/syntax/compiler.py", "                s.UntilOp: \"until\",\n", "", "c10-until-not-rejected")
+M("C10", "C10.shadow", _G, "    | scenic_terminate_simulation_stmt\n    | scenic_terminate_stmt\n", "    | scenic_terminate_stmt\n    | scenic_terminate_simulation_stmt\n", "c10-terminate-shadows")
+M("C09", "C09.arguments", _G, "            [d for _, d in pos_only_with_default if d is not None]\n            if pos_only_with_default else\n            []\n        )\n        defaults += (\n            [d for _, d in param_default if d is not None]\n            if param_default else\n            []\n        )", "            [d for _, d in param_default if d is not None]\n            if param_default else\n            []\n        )\n        defaults += (\n            [d for _, d in pos_only_with_default if d is not None]\n            if pos_only_with_default else\n            []\n        )", "c09-defaults-order")
